@@ -69,7 +69,12 @@ func loadKeptIndex() keptIndex {
 
 func keptFuncKey(fi *FuncInfo) string {
 	rel := strings.TrimPrefix(strings.TrimPrefix(fi.Pkg.PkgPath, modPath), "/")
-	return rel + "|" + recvTypeNameRef(fi) + "|" + refName(fi.Obj)
+	name := refName(fi.Obj)
+	if name == "init" && theProg != nil {
+		// a package may have one init per file
+		name += "@" + filepath.Base(theProg.Fset.Position(fi.Decl.Pos()).Filename)
+	}
+	return rel + "|" + recvTypeNameRef(fi) + "|" + name
 }
 
 // recvTypeNameRef: the receiver's type name under its reference name
